@@ -112,6 +112,9 @@ pub struct World {
     pub stats_called_unusable: bool,
     /// after a hard fault the oracles are relaxed for the rest of the run
     pub faulted: bool,
+    /// library and model diverged (outcome oracle off): nothing more can be judged in this run
+    pub stop: bool,
+    pub unmount_failed: bool,
     pub geo: refdec::Geo,
     /// property the current check is about (default attribution of panics, hangs, mount failures)
     pub prop: String,
